@@ -2,6 +2,7 @@
 import metaprop
 import genmeta
 from metaprop import run_impl, model_view  # noqa: F401
+import directed
 
 DESCRIPTION = ("Lean: Props/C04.lean (collapse rules of the namespace pass, chain theorem relating the metaclass model to the "
                "chain reading used by C01/C02, constructor exclusion, weaken-without-base rejection). Tie: introspected lists "
@@ -15,11 +16,17 @@ PROJECTION = "(per step: creation outcome; per class: MRO, the three invariant l
 ASSUMPTIONS = ["each function object appears in one class namespace", "members added to a class after its creation are not covered"]
 NEIGHBOURS = [{"from": "C18", "tags": ["hist"], "limit": 700, "why": "the effective contracts are enforced on real calls"},
               {"from": "C13", "limit": 400, "why": "groups are tried in the same way on async callables"},
-              {"from": "C03", "limit": 400, "why": "inherited invariants guard the members of derived classes"}]
+              {"from": "C03", "limit": 400, "why": "inherited invariants guard the members of derived classes"},
+              {"from": "C18", "limit": 800, "why": "inherited invariants guard every public member of the class, wherever the member was defined"}]
+
+
+run_directed = directed.run
 
 
 def cases(tier, rng):
     thorough = tier == "thorough"
+    for c in directed.members_from_invariantless_bases_cases():
+        yield "directed-members-from-invariantless-bases", c
     for c in genmeta.shapes():
         yield "shape", c
     for _ in range(6000 if thorough else 700):
